@@ -108,6 +108,15 @@ enum Op {
     MpRemove(usize),
     MpAdd(usize),
     MpSetMoveCursor,
+    /// insert(index, bar) / insert_from_back(index, bar): re-inserts a bar of this MultiProgress
+    MpInsert(usize, usize),
+    MpInsertFromBack(usize, usize),
+    /// insert_before / insert_after(anchor = bar 0, bar): bar 0 is never detached in a Multi scenario, so
+    /// `anchor.index().unwrap()` cannot fail (a vanished anchor is finding D30 of C02, not a C08 matter)
+    MpInsertBefore(usize),
+    MpInsertAfter(usize),
+    /// remove(bar) then add(bar): add() of a member is a no-op since bee77c9, this takes the full path
+    MpReAdd(usize),
 }
 
 impl Op {
@@ -117,7 +126,8 @@ impl Op {
             Inc(b) | SetPosition(b) | Tick(b) | Update(b) | SetMessage(b) | SetLength(b) | Println(b)
             | Suspend(b) | Finish(b, _) | Reset(b) | Enable(b, _) | Disable(b) | CloneDrop(b)
             | DropHandle(b) | IsHidden(b) | Position(b) | ForceDraw(b) | SetHidden(b) | MpRemove(b)
-            | MpAdd(b) => Some(*b),
+            | MpAdd(b) | MpInsert(b, _) | MpInsertFromBack(b, _) | MpInsertBefore(b) | MpInsertAfter(b)
+            | MpReAdd(b) => Some(*b),
             _ => None,
         }
     }
@@ -155,6 +165,11 @@ impl Op {
             MpRemove(_) => vec!["MultiProgress::remove"],
             MpAdd(_) => vec!["MultiProgress::add"],
             MpSetMoveCursor => vec!["MultiProgress::set_move_cursor"],
+            MpInsert(..) => vec!["ProgressBar::clone", "MultiProgress::insert", "ProgressBar::drop"],
+            MpInsertFromBack(..) => vec!["ProgressBar::clone", "MultiProgress::insert_from_back", "ProgressBar::drop"],
+            MpInsertBefore(_) => vec!["ProgressBar::clone", "MultiProgress::insert_before", "ProgressBar::drop"],
+            MpInsertAfter(_) => vec!["ProgressBar::clone", "MultiProgress::insert_after", "ProgressBar::drop"],
+            MpReAdd(_) => vec!["MultiProgress::remove", "ProgressBar::clone", "MultiProgress::add", "ProgressBar::drop"],
         }
     }
     fn text(&self) -> String {
@@ -191,7 +206,7 @@ const INTERVALS: [u64; 6] = [1, 2, 5, 50, 1000, HOUR_MS];
 
 fn gen_op(r: &mut Rng, nbars: usize, multi: bool) -> Op {
     let b = r.below(nbars as u64) as usize;
-    let k = if multi { r.below(30) } else { r.below(23) };
+    let k = if multi { r.below(37) } else { r.below(23) };
     match k {
         0..=2 => Op::Inc(b),
         3 => Op::SetPosition(b),
@@ -225,7 +240,35 @@ fn gen_op(r: &mut Rng, nbars: usize, multi: bool) -> Op {
         26 => Op::MpIsHidden,
         27 => Op::MpRemove(b),
         28 => Op::MpAdd(b),
-        _ => Op::MpSetMoveCursor,
+        29 => Op::MpSetMoveCursor,
+        30 => Op::MpInsert(b, r.below(4) as usize),
+        31 => Op::MpInsertFromBack(b, r.below(4) as usize),
+        32..=33 => Op::MpInsertBefore(b),
+        34 => Op::MpInsertAfter(b),
+        _ => Op::MpReAdd(b),
+    }
+}
+
+/// in a Multi scenario with at least two bars, bar 0 is the anchor of insert_before/after: it is never
+/// detached (remove / set_draw_target / re-insertion) and never inserted relative to itself
+fn protect_anchor(op: Op, nbars: usize) -> Op {
+    use Op::*;
+    if nbars < 2 {
+        return match op {
+            MpInsertBefore(_) | MpInsertAfter(_) => MpPrintln,
+            o => o,
+        };
+    }
+    match op {
+        MpRemove(0) => MpRemove(1),
+        SetHidden(0) => SetHidden(1),
+        MpReAdd(0) => MpReAdd(1),
+        MpAdd(0) => MpAdd(1),
+        MpInsert(0, i) => MpInsert(1, i),
+        MpInsertFromBack(0, i) => MpInsertFromBack(1, i),
+        MpInsertBefore(0) => MpInsertBefore(1),
+        MpInsertAfter(0) => MpInsertAfter(1),
+        o => o,
     }
 }
 
@@ -243,7 +286,16 @@ fn gen_scenario(r: &mut Rng) -> Scenario {
     let threads = (0..nthreads)
         .map(|_| {
             let n = r.range(1, 5);
-            (0..n).map(|_| gen_op(r, nbars, target == Target::Multi)).collect()
+            (0..n)
+                .map(|_| {
+                    let op = gen_op(r, nbars, target == Target::Multi);
+                    if target == Target::Multi {
+                        protect_anchor(op, nbars)
+                    } else {
+                        op
+                    }
+                })
+                .collect()
         })
         .collect();
     Scenario { target, nbars, initial, threads }
@@ -302,6 +354,32 @@ fn apply(op: &Op, bars: &mut [Option<ProgressBar>], mp: &Option<MultiProgress>) 
         }
         (MpAdd(_), Some(p)) => {
             if let Some(m) = mp {
+                let _ = m.add(p.clone());
+            }
+        }
+        (MpInsert(_, i), Some(p)) => {
+            if let Some(m) = mp {
+                let _ = m.insert(*i, p.clone());
+            }
+        }
+        (MpInsertFromBack(_, i), Some(p)) => {
+            if let Some(m) = mp {
+                let _ = m.insert_from_back(*i, p.clone());
+            }
+        }
+        (MpInsertBefore(_), Some(p)) => {
+            if let (Some(m), Some(a)) = (mp, bars[0].clone()) {
+                let _ = m.insert_before(&a, p.clone());
+            }
+        }
+        (MpInsertAfter(_), Some(p)) => {
+            if let (Some(m), Some(a)) = (mp, bars[0].clone()) {
+                let _ = m.insert_after(&a, p.clone());
+            }
+        }
+        (MpReAdd(_), Some(p)) => {
+            if let Some(m) = mp {
+                m.remove(&p);
                 let _ = m.add(p.clone());
             }
         }
@@ -488,6 +566,12 @@ fn scenario_coq(sc: &Scenario, seed: u64, completed: bool) -> String {
             }
             if let Op::MpAdd(_) = op {
                 prog.push(call("ProgressBar::drop", b, k));
+            }
+            if matches!(op, Op::MpInsertBefore(_) | Op::MpInsertAfter(_)) && !have[0] {
+                // the thread has dropped its handle of the anchor: the op is a no-op at run time
+                for _ in 0..3 {
+                    prog.pop();
+                }
             }
         }
         for b in 0..sc.nbars {
@@ -821,7 +905,8 @@ fn main() {
     let mut s = Session::new(&a, "C08", header, "c08case", "c08_chk");
     s.rule = "real threads through the public API under a 6 s watchdog: 2-3 threads x 1-5 calls (inc, set_position, tick, update, \
               set_message, println, suspend, finish*/abandon*, reset, enable/disable_steady_tick at 1 ms..1 h, clone+drop, drop, \
-              is_hidden, force_draw, set_draw_target; MultiProgress println/clear/suspend/remove/add/is_hidden) on 1-3 shared bars \
+              is_hidden, force_draw, set_draw_target; MultiProgress println/clear/suspend/remove/add/insert/insert_from_back/\
+              insert_before/insert_after (anchor = bar 0, never detached)/remove+add/is_hidden) on 1-3 shared bars \
               (hidden / InMemoryTerm / MultiProgress members), with and without initial tickers; each scenario is also replayed on \
               the lock model built from the generated footprint table; ticker lifecycle cases: event x interval x target; manual \
               tick cases; non-trivial = at least 3 calls; distinct = distinct scenario text"
